@@ -25,6 +25,8 @@ def ops():
     for dd in (28, 29, 30, 31):
         out.append({"day": dd})
     out += [{"month": 2, "day": 29}, {"month": 12, "day": 31}, {"month": 4, "day": 31}]
+    out += [{"yearday": 1}, {"yearday": 59}, {"yearday": 60}, {"yearday": 365}, {"yearday": 366}, {"nlyearday": 60}, {"nlyearday": 365},
+            {"yearday": 200, "days": 3}, {"leapdays": -1, "month": 3, "day": 1}]
     for n in NS:
         for u in ("months", "days", "weeks", "hours", "minutes"):
             out.append({u: n})
